@@ -91,8 +91,40 @@ fn run<K: Kmer>(entry: &str, stranded: bool, spec: &Spec, table: &str) -> String
     format!("{}|{}", show_nat_list(&sigma), res.unwrap_or_else(|_| "panic".to_string()))
 }
 
+/// `longpath <K> <seed> <len> <stranded> <entry>`: one repeat-free random read of `len` bases (all canonical k-mers distinct, none its
+/// own reverse complement: checked here and reported), through the real filter and the chosen entry point. The table is too large
+/// for the line protocol and for the executable model; the answer is judged against the property directly: one unbranched path.
+fn longpath<K: Kmer>(seed: u64, len: usize, stranded: bool, entry: &str) -> String {
+    let mut rng = Rng::new(seed);
+    let k = K::k();
+    let seq: Vec<u8> = (0..len).map(|_| rng.below(4) as u8).collect();
+    let mut seen = std::collections::HashSet::new();
+    let mut distinct = true;
+    for w in seq.windows(k) {
+        let km = K::from_bytes(w);
+        if !stranded && km == km.rc() { distinct = false; }
+        if !seen.insert(if stranded { km } else { km.min_rc() }) { distinct = false; }
+    }
+    let t: Vec<(K, (Exts, u32))> = table_from_reads(&[seq], &[0], stranded, 1, false, false);
+    let spec = Spec { join_eq: false, reduce: 0 };
+    let g = match entry {
+        "hash" => {
+            let index = BoomHashMap2::new(t.iter().map(|x| x.0).collect(), t.iter().map(|x| (x.1).0).collect(), t.iter().map(|x| (x.1).1).collect());
+            compress_kmers_with_hash(stranded, &spec, &index)
+        }
+        "slice" => compress_kmers(stranded, &spec, &t),
+        _ => { let kd: Vec<(K, u32)> = t.iter().map(|x| (x.0, (x.1).1)).collect(); compress_kmers_no_exts(stranded, &spec, &kd) }
+    };
+    let lens: Vec<usize> = (0..g.len()).map(|i| g.sequences.get(i).len()).collect();
+    format!("distinct={}|kmers={}|nodes={}|lens={}", distinct as u8, t.len(), g.len(), show_nat_list(&lens))
+}
+
 /// `compress <entry> <K> <stranded> <join> <reduce> <table>`
 pub fn exec(a: &[&str]) -> String {
+    if a[0] == "longpath" {
+        let k: usize = a[1].parse().unwrap();
+        return with_graph_kmer!(k, longpath, a[2].parse().unwrap(), a[3].parse().unwrap(), a[4] == "1", a[5]);
+    }
     let k: usize = a[2].parse().unwrap();
     let spec = parse_spec(a[4], a[5]);
     with_graph_kmer!(k, run, a[1], a[3] == "1", &spec, a[6])
@@ -144,6 +176,11 @@ fn gen_table<K: Kmer>(rng: &mut Rng, k: usize, tier: &str, stranded: bool, colou
 }
 
 pub fn gen_prop(prop: &str, rng: &mut Rng, tier: &str) -> String {
+    if rng.chance(1, if tier == "thorough" { 300 } else { 500 }) {
+        // an unbranched path of more than 2 * 65 536 k-mers (counters and distances inside the walk are sized somewhere)
+        return format!("{} longpath {} {} {} {} {}", prop, *rng.pick(&[31usize, 31, 24, 48]), rng.next() % 1000000, rng.range(131200, 150000), rng.below(2),
+            *rng.pick(&["hash", "hash", "slice", "noexts"]));
+    }
     let k = pick_k(rng, tier);
     let stranded = rng.chance(1, 3);
     let colour = rng.chance(1, 3);
